@@ -547,7 +547,7 @@ fn main() {
     let thorough = args.thorough();
     let mut out = CaseOut::new(&args.out, HEADER, 40);
 
-    let n_corpora = if thorough { 420 } else { 45 };
+    let n_corpora = if thorough { 420 } else { 36 };
     let reqs_per_corpus = if thorough { 8 } else { 6 };
     let mut tie_dependent = 0u64;
 
